@@ -128,13 +128,30 @@ def run(ctx):
             hcases.append({"id": "%s/ws/detached-init/drop" % i, "query": q, "plan": p, "transport": "ws", "timeoutMs": 4000,
                            "clientEnds": "drop", "afterNext": 1, "detachedInit": True})
             hcases.append({"id": "%s/ws/detached-init" % i, "query": q, "plan": p, "transport": "ws", "timeoutMs": 4000, "detachedInit": True})
+        # SSE with keep-alive pings (their goroutine must end with the request)
+        for i, q, p in ops[:4]:
+            if q.startswith("mutation"):
+                continue
+            for extra, tag in (({}, ""), ({"disconnectAfter": 20}, "/drop"), ({"cancelAt": 4}, "/cancel")):
+                c = {"id": "%s/sse-keepalive%s" % (i, tag), "query": q, "plan": p, "transport": "sse", "timeoutMs": 4000, "keepAliveUs": 1500}
+                c.update(extra)
+                hcases.append(c)
+        # requests that are REFUSED before anything executes (parse error, validation error, unknown operation name):
+        # whatever the transport started on their behalf must be gone as well
+        plan0 = {"seed": ctx.seed, "rates": {}}
+        for name, rq, opn in (("validation", "{ nope }", ""), ("parse", "{ i ", ""), ("unknown-operation", "query A { i }", "B")):
+            for tr in ("post", "get", "sse", "multipart", "ws"):
+                c = {"id": "refused-%s/%s" % (name, tr), "query": rq, "operationName": opn, "plan": plan0, "transport": tr, "timeoutMs": 4000}
+                if tr == "sse":
+                    c["keepAliveUs"] = 1500
+                hcases.append(c)
         rc, so, se = vf.sh([b, "-mode", "http", "-maxhung", "3"], inp="\n".join(json.dumps(c) for c in hcases) + "\n", timeout=1200)
         if rc != 0:
             raise RuntimeError("http runner failed: " + se[-2000:])
         for c, l in zip(hcases, [x for x in so.split("\n") if x]):
             r = json.loads(l)
             total += 1
-            dist["http:" + c["transport"] + (":" + c["subproto"] if c.get("subproto") else "") + (":server-closes:" + c["clientEnds"] if c.get("clientEnds") in ("dupid", "terminate") else
+            dist["http:" + c["transport"] + (":refused" if c["id"].startswith("refused-") else "") + (":keepalive" if c.get("keepAliveUs") else "") + (":" + c["subproto"] if c.get("subproto") else "") + (":server-closes:" + c["clientEnds"] if c.get("clientEnds") in ("dupid", "terminate") else
                                              ":drop" if c.get("disconnectAfter") or c.get("clientEnds") == "drop" else
                                              ":client-complete" if c.get("clientEnds") else ":cancel" if c.get("cancelAt") else "")] += 1
             nontriv.add(c["id"] + cfg)
